@@ -217,13 +217,26 @@ func (e *c03QiEnv) wire(s c03QiSpec, sig []byte) []byte {
 func (e *c03QiEnv) digest(s c03QiSpec) ([32]byte, error) {
 	tx, err := c03DecodeWire(e.wire(s, make([]byte, 64)), e.loc)
 	if err != nil {
-		return [32]byte{}, err
+		return [32]byte{}, &c03DecodeRefused{err}
 	}
 	var h common.Hash
 	if perr := vx.Guard(func() { h = types.NewSigner(big.NewInt(s.Chain), e.loc).Hash(tx) }); perr != "" {
 		return [32]byte{}, fmt.Errorf("panic in signer.Hash")
 	}
 	return h, nil
+}
+
+// c03DecodeRefused: the node's decoder (ProtoDecode) refuses the transaction the wallet wants to
+// sign. For a non-canonical (hybrid) key encoding that refusal IS the desired rejection.
+type c03DecodeRefused struct{ err error }
+
+func (d *c03DecodeRefused) Error() string { return "decoder refuses the transaction: " + d.err.Error() }
+
+func c03RefusedAtDecode(err error) (string, bool) {
+	if d, ok := err.(*c03DecodeRefused); ok {
+		return c03ErrClass(d.err), true
+	}
+	return "", false
 }
 
 type c03DetRand struct {
@@ -953,6 +966,19 @@ func c03RunQiWire(c *vx.Ctx, keys []*c03Key) {
 	for _, b := range bases {
 		d, derr := e.digest(b.Spec)
 		if derr != nil {
+			if class, refused := c03RefusedAtDecode(derr); refused && b.Spec.Enc == "hybrid" {
+				// the decoder does not let a hybrid-key transaction in at all: nothing can be signed,
+				// replayed or mutated -> recorded as a rejection (the case stays enumerated, so a tree
+				// that decodes such keys again is explored in full below)
+				item++
+				if c.Mine(item) {
+					p.States++
+					p.Transitions++
+					p.Traces++
+					p.Outcome("baseline-refused-at-decode:" + class + "|enc=hybrid")
+				}
+				continue
+			}
 			c.HarnessError("digest: " + derr.Error())
 			continue
 		}
@@ -1034,10 +1060,22 @@ type c03HCTx struct {
 func c03HashCacheTxs(e *c03QiEnv, keys []*c03Key) ([]c03HCTx, error) {
 	var out []c03HCTx
 	for _, enc := range []string{"compressed", "uncompressed", "hybrid"} {
+		refused := false
 		sign := func(s c03QiSpec, list []int) ([]byte, error) {
 			d, err := e.digest(s)
 			if err != nil {
-				return nil, err
+				if _, r := c03RefusedAtDecode(err); r && enc == "hybrid" {
+					// no digest exists for a transaction the decoder refuses; the wire form is still
+					// submitted (with the signature of its canonical twin) and must be turned away
+					refused = true
+					c := s.clone()
+					c.Enc = "uncompressed"
+					if d, err = e.digest(c); err != nil {
+						return nil, err
+					}
+				} else {
+					return nil, err
+				}
 			}
 			return c03QiSign(keys, list, d)
 		}
@@ -1064,8 +1102,8 @@ func c03HashCacheTxs(e *c03QiEnv, keys []*c03Key) ([]c03HCTx, error) {
 		badsig := append([]byte{}, sig0...)
 		badsig[40] ^= 1
 		out = append(out,
-			c03HCTx{"key0-spends-own/" + enc, enc, e.wire(own0, sig0), true},
-			c03HCTx{"key1-spends-own/" + enc, enc, e.wire(own1, sig1), true},
+			c03HCTx{"key0-spends-own/" + enc, enc, e.wire(own0, sig0), !refused},
+			c03HCTx{"key1-spends-own/" + enc, enc, e.wire(own1, sig1), !refused},
 			c03HCTx{"key1-spends-key0-utxo-signed-by-key1/" + enc, enc, e.wire(forged, sigF), false},
 			c03HCTx{"key1-spends-key0-utxo-zero-signature/" + enc, enc, e.wire(forged, make([]byte, 64)), false},
 			c03HCTx{"key0-tx-output-redirected-old-signature/" + enc, enc, e.wire(redirected, sig0), false},
@@ -1146,7 +1184,11 @@ func c03RunHashCache(c *vx.Ctx, keys []*c03Key) {
 			p.Transitions += int64(depth)
 			p.Traces += int64(depth)
 			acc, skipped, trace := e.execHashCache(pw, b.Wire, 9000)
-			p.Outcome(fmt.Sprintf("block-tx-authorised=%v|sig-check-skipped=%v|accepted=%v", b.Authorised, skipped, acc))
+			verdict := fmt.Sprintf("accepted=%v", acc)
+			if len(trace) > 0 && trace[len(trace)-1] == "block:undecodable" {
+				verdict = "refused-at-decode"
+			}
+			p.Outcome(fmt.Sprintf("block-tx-authorised=%v|sig-check-skipped=%v|%s", b.Authorised, skipped, verdict))
 			if bi == 0 && len(pool) == 1 && pool[0] == 0 {
 				p.Sample(map[string]any{"pool": pn, "block_tx": b.Name, "trace": trace})
 			}
